@@ -31,7 +31,7 @@ ASSUMPTIONS = [
 FLOORS = {'serial_field_calls': 100000, 'date_constructor_calls': 2000,
           'month_move_calls': 2000, 'pair_calls': 2000,
           'early_1900_cases': 100, 'timed_serial_field_cases': 100,
-          'end_of_range_month_moves': 20}
+          'end_of_range_month_moves': 20, 'fractional_date_parts': 50}
 ANCHOR_FUNCS = {
     'xlcalculator/xlfunctions/date.py': ['DATE', 'YEAR', 'MONTH', 'DAY',
                                          'WEEKDAY', 'ISOWEEKNUM', 'EDATE',
@@ -319,6 +319,22 @@ def run(ctx):
         R.check('DATE', (y, m, dd), want, 'date_constructor_calls',
                 ('DATE-boundary', y, m, dd))
 
+    # ---- DATE with fractional month / day (the whole part counts, so a month
+    # or day between 0 and 1 is the month / day number 0: a carry backwards) ---
+    if ctx.shard in (6, 7) or thorough:
+        for y in (2020, 2021, 1999):
+            for m, dd in ((0.5, 15), (0.75, 1), (3, 0.75), (3, 0.25), (1.5, 10),
+                          (12.9, 31.9), (0.5, 0.5), (6, 1.999), (13.2, 1),
+                          (1, 0.01)):
+                mi, di = int(m), int(dd)
+                t = y * 12 + (mi - 1)
+                yy, mm = divmod(t, 12)
+                want = datetime.date(yy, mm + 1, 1) + datetime.timedelta(
+                    days=di - 1)
+                R.check('DATE', (y, m, dd), want, 'date_constructor_calls',
+                        ('DATE-fraction', m < 1, dd < 1))
+                ctx.event('fractional_date_parts')
+
     # ---- EDATE / EOMONTH ---------------------------------------------------------
     sample_serials = [rng.choice(serials) for _ in range(30)] + [
         serial_of(datetime.date(2020, 1, 31)),
@@ -356,6 +372,11 @@ def run(ctx):
         last = serial_of(datetime.date(9999, 12, 31))
         for n, k in ([(last - j, 0) for j in (0, 1, 15, 30)]
                      + [(serial_of(datetime.date(9999, 11, 30)), 1),
+                        # offsets close to the whole span of the date system
+                        (61, 97197), (serial_of(datetime.date(1900, 3, 15)),
+                                      97197),
+                        (serial_of(datetime.date(1900, 12, 31)), 97188),
+                        (serial_of(datetime.date(1900, 5, 31)), 97195),
                         (serial_of(datetime.date(9999, 6, 30)), 6),
                         (serial_of(datetime.date(9998, 11, 30)), 13),
                         (serial_of(datetime.date(9999, 1, 31)), 11),
@@ -369,6 +390,17 @@ def run(ctx):
                     ('EDATE-9999', n, k))
             R.check('EOMONTH', (n, k), last, 'month_move_calls',
                     ('EOMONTH-9999', n, k))
+        for n, k in ((MAXSERIAL, -97197), (MAXSERIAL - 30, -97196),
+                     (serial_of(datetime.date(9999, 6, 15)), -97191)):
+            d = date_of(n)
+            moved = add_months(d, k)
+            eom = datetime.date(moved.year, moved.month,
+                                last_dom(moved.year, moved.month))
+            R.check('EDATE', (n, k), serial_of(moved), 'month_move_calls',
+                    ('EDATE-span', n, k))
+            R.check('EOMONTH', (n, k), serial_of(eom), 'month_move_calls',
+                    ('EOMONTH-span', n, k))
+            ctx.event('end_of_range_month_moves')
         for n, k in ((serial_of(datetime.date(9999, 11, 30)), 0),
                      (serial_of(datetime.date(9999, 12, 1)), -1),
                      (serial_of(datetime.date(9999, 10, 31)), 1)):
